@@ -264,6 +264,39 @@ class TargetFault(Exception):
     """sentinel raised by the logger/target stub at a symbolic call position (C10)"""
 
 
+# the classes a user's target may derive its exception from: a handler in pybads that catches one of them (to retry, to
+# re-word the message, ...) changes the type that reaches the caller of optimize() only for that family
+FAULT_BASES = dict(exc=None, value=ValueError, linalg=np.linalg.LinAlgError, arith=FloatingPointError, lookup=KeyError,
+                   runtime=RuntimeError, type=TypeError, os=OSError, assertion=AssertionError, attr=AttributeError, index=IndexError)
+_FAULT_CLS = {}
+
+
+def fault_class(kind):
+    if kind in (None, "exc"):
+        return TargetFault
+    if kind not in _FAULT_CLS:
+        _FAULT_CLS[kind] = type("TargetFault_" + kind, (TargetFault, FAULT_BASES[kind]), {})
+    return _FAULT_CLS[kind]
+
+
+class FaultSite:
+    """raises the configured fault class at the positions the engine chooses and judges what left the unit"""
+
+    def __init__(self, kind=None):
+        self.cls = fault_class(kind)
+        self.raised = []
+
+    def fire(self, msg="target failed"):
+        e = self.cls(msg)
+        self.raised.append(e)
+        raise e
+
+    def escaped(self, exc):
+        if not self.raised:
+            return exc is None
+        return exc is not None and type(exc) is type(self.raised[0])
+
+
 def col(vals, eng):
     """(n,1) array of values"""
     a = np.empty((len(vals), 1), dtype=object)
